@@ -43,7 +43,7 @@ Definition aff_det (A : aff) : Q :=
   + a02 A * (a10 A * a21 A - a11 A * a20 A).
 
 (* the exact inverse (adjugate / determinant); meaningful when aff_det A is not 0 *)
-Definition aff_inv (A : aff) : aff :=
+Definition aff_inv_pure (A : aff) : aff :=
   let d := aff_det A in
   let i00 := (a11 A * a22 A - a12 A * a21 A) / d in
   let i01 := (a02 A * a21 A - a01 A * a22 A) / d in
@@ -58,6 +58,29 @@ Definition aff_inv (A : aff) : aff :=
       (- (i00 * b0 A + i01 * b1 A + i02 * b2 A))
       (- (i10 * b0 A + i11 * b1 A + i12 * b2 A))
       (- (i20 * b0 A + i21 * b1 A + i22 * b2 A)).
+
+(* the same with every intermediate fraction brought to lowest terms (Qred x == x): the
+   executable version, so that numerators and denominators stay small *)
+Definition aff_inv (A : aff) : aff :=
+  let d := Qred (aff_det A) in
+  let i00 := Qred ((a11 A * a22 A - a12 A * a21 A) / d) in
+  let i01 := Qred ((a02 A * a21 A - a01 A * a22 A) / d) in
+  let i02 := Qred ((a01 A * a12 A - a02 A * a11 A) / d) in
+  let i10 := Qred ((a12 A * a20 A - a10 A * a22 A) / d) in
+  let i11 := Qred ((a00 A * a22 A - a02 A * a20 A) / d) in
+  let i12 := Qred ((a02 A * a10 A - a00 A * a12 A) / d) in
+  let i20 := Qred ((a10 A * a21 A - a11 A * a20 A) / d) in
+  let i21 := Qred ((a01 A * a20 A - a00 A * a21 A) / d) in
+  let i22 := Qred ((a00 A * a11 A - a01 A * a10 A) / d) in
+  mkA i00 i01 i02 i10 i11 i12 i20 i21 i22
+      (Qred (- (i00 * b0 A + i01 * b1 A + i02 * b2 A)))
+      (Qred (- (i10 * b0 A + i11 * b1 A + i12 * b2 A)))
+      (Qred (- (i20 * b0 A + i21 * b1 A + i22 * b2 A))).
+
+Definition aff_red (A : aff) : aff :=
+  mkA (Qred (a00 A)) (Qred (a01 A)) (Qred (a02 A)) (Qred (a10 A)) (Qred (a11 A)) (Qred (a12 A))
+      (Qred (a20 A)) (Qred (a21 A)) (Qred (a22 A)) (Qred (b0 A)) (Qred (b1 A)) (Qred (b2 A)).
+Definition aff_mul_r (A B : aff) : aff := aff_red (aff_mul A B).
 
 Definition aff_eq (A B : aff) : Prop :=
   a00 A == a00 B /\ a01 A == a01 B /\ a02 A == a02 B /\
@@ -139,7 +162,7 @@ Definition aff_halfvox : aff := mkA 1 0 0 0 1 0 0 0 1 (- (1 # 2)) (- (1 # 2)) (-
 Definition to_rasmm (vs dims : Q * Q * Q) (oh oa : ornt) (V : aff) : option aff :=
   match ornt_transform oh oa with
   | None => None
-  | Some o => Some (aff_mul V (aff_mul (inv_ornt_aff o dims) (aff_mul aff_halfvox (aff_scale vs))))
+  | Some o => Some (aff_mul_r V (aff_mul_r (inv_ornt_aff o dims) (aff_mul_r aff_halfvox (aff_scale vs))))
   end.
 
 Definition to_trackvis (vs dims : Q * Q * Q) (oh oa : ornt) (V : aff) : option aff :=
